@@ -15,10 +15,12 @@ import (
 	"math/big"
 	"os"
 	"path/filepath"
+	"reflect"
 	"regexp"
 	"runtime"
 	"runtime/debug"
 	"sort"
+	"strconv"
 	"strings"
 	"sync"
 	"sync/atomic"
@@ -45,6 +47,7 @@ type xFailure struct {
 	Opts     string `json:"opts"`
 	Kind     string `json:"kind"`
 	Mutation string `json:"mutation,omitempty"`
+	LitKind  string `json:"lit_kind,omitempty"`
 	OrigLen  int    `json:"orig_len"`
 }
 
@@ -103,6 +106,7 @@ type xReport struct {
 	Known         map[string]*xKnown `json:"known_candidates"`
 	Relaxed       map[string]*xKnown `json:"relaxed_counts"`
 	Threeway      xThreeway          `json:"threeway"`
+	Idents        xIdents            `json:"idents"`
 	Relaxations   []string           `json:"relaxations"`
 	WallMs        int64              `json:"wall_ms"`
 }
@@ -276,7 +280,17 @@ func (w *walker) posState(p token.Pos) (off int, abs, inRange bool, delta int) {
 	return off, true, false, 1 << 20
 }
 
-func nodeName(n ast.Node) string { return strings.TrimPrefix(fmt.Sprintf("%T", n), "*ast.") }
+var nodeNames sync.Map // reflect.Type -> string
+
+func nodeName(n ast.Node) string {
+	t := reflect.TypeOf(n)
+	if v, ok := nodeNames.Load(t); ok {
+		return v.(string)
+	}
+	name := strings.TrimPrefix(fmt.Sprintf("%T", n), "*ast.")
+	nodeNames.Store(t, name)
+	return name
+}
 
 // checkPos is I1 for one position; returns offset and whether it can be used
 // in comparisons.
@@ -643,7 +657,21 @@ func (w *walker) visit(n ast.Node, isComment bool) span {
 		s = w.spanOf(n)
 	}
 	if w.dump != nil {
-		fmt.Fprintf(w.dump, "(%s %d:%v %d:%v", name, s.pos, s.hasPos, s.end, s.hasE)
+		d := w.dump
+		d.WriteByte('(')
+		d.WriteString(name)
+		d.WriteByte(' ')
+		if s.hasPos {
+			d.WriteString(strconv.Itoa(s.pos))
+		} else {
+			d.WriteByte('-')
+		}
+		d.WriteByte(' ')
+		if s.hasE {
+			d.WriteString(strconv.Itoa(s.end))
+		} else {
+			d.WriteByte('-')
+		}
 	}
 	w.tokenChecks(n)
 
@@ -769,6 +797,11 @@ func parseOnce(src []byte, os optSet, res *aResult, wantDump bool, stage *atomic
 // option sets (indices into optSets); the first one also gets the
 // determinism re-parse.
 func checkParse(src []byte, sets []int, withTypes bool) *aResult {
+	return checkParseDet(src, sets, withTypes, true)
+}
+
+// checkParseDet: det selects the I5 determinism re-parse for the first set.
+func checkParseDet(src []byte, sets []int, withTypes, det bool) *aResult {
 	res := &aResult{}
 	if withTypes {
 		res.nodeTypes = map[string]int{}
@@ -779,8 +812,8 @@ func checkParse(src []byte, sets []int, withTypes bool) *aResult {
 		stage.Store("start")
 		sub := &aResult{nodeTypes: res.nodeTypes}
 		pv, panicked, timedOut := guarded(func() {
-			d1 := parseOnce(src, os, sub, si == 0, &stage)
-			if si == 0 {
+			d1 := parseOnce(src, os, sub, det && si == 0, &stage)
+			if det && si == 0 {
 				// I5 determinism: a second, independent parse.
 				save := *sub
 				sub2 := &aResult{}
@@ -927,6 +960,15 @@ type corpusFile struct {
 
 const maxCorpusSize = 16 << 10
 
+// repoRoot is the tree whose corpus files are read: VERIF_REPO (the tree the
+// harness was built from) or /repo.
+func repoRoot() string {
+	if r := os.Getenv("VERIF_REPO"); r != "" {
+		return strings.TrimRight(r, "/")
+	}
+	return "/repo"
+}
+
 func parseTxtar(data []byte) (out []corpusFile) {
 	lines := bytes.SplitAfter(data, []byte("\n"))
 	cur := -1
@@ -947,7 +989,7 @@ func parseTxtar(data []byte) (out []corpusFile) {
 
 func loadCorpus() (files []corpusFile, source string) {
 	var plain, txtars []string
-	for _, root := range []string{"/repo/cue/testdata", "/repo/doc"} {
+	for _, root := range []string{repoRoot() + "/cue/testdata", repoRoot() + "/doc"} {
 		filepath.WalkDir(root, func(p string, d fs.DirEntry, err error) error {
 			if err != nil || d.IsDir() {
 				return nil
@@ -980,7 +1022,7 @@ func loadCorpus() (files []corpusFile, source string) {
 	if len(files) < 50 {
 		// Fallback: the *.cue sections of the txtar archives (also the
 		// formatter's test archives, which are comment-heavy).
-		more, _ := filepath.Glob("/repo/cue/format/testdata/*.txtar")
+		more, _ := filepath.Glob(repoRoot() + "/cue/format/testdata/*.txtar")
 		sort.Strings(more)
 		txtars = append(txtars, more...)
 		n0 := len(files)
@@ -1910,6 +1952,287 @@ func genLit(r *common.Rng) twCase {
 }
 
 // ---------------------------------------------------------------------------
+// PART C: identifier spellings: scanner / ast.IsValidIdent / parser agree
+
+type idCase struct {
+	kind string
+	lit  string
+}
+
+type idResult struct {
+	verdict string // 4 chars S I P F; '-' == no, '!' == Go panic
+	class   string
+	known   bool
+	untri   bool
+	what    string
+}
+
+func uc(cps ...rune) string { return string(cps) }
+
+func idScan(L string) (ok, panicked bool) {
+	_, panicked, _ = guarded(func() {
+		f := token.NewFile("x.cue", -1, len(L))
+		var s scanner.Scanner
+		nerr := 0
+		s.Init(f, []byte(L), func(token.Pos, string, []interface{}) { nerr++ }, 0)
+		pos, t, lit := s.Scan()
+		if t != token.IDENT || lit != L || pos.Offset() != 0 {
+			return
+		}
+		_, t2, l2 := s.Scan()
+		if t2 != token.COMMA || l2 != "\n" {
+			return
+		}
+		if _, t3, _ := s.Scan(); t3 != token.EOF {
+			return
+		}
+		ok = nerr == 0 && s.ErrorCount == 0
+	})
+	return ok && !panicked, panicked
+}
+
+func idValid(L string) (ok, panicked bool) {
+	_, panicked, _ = guarded(func() { ok = ast.IsValidIdent(L) })
+	return ok && !panicked, panicked
+}
+
+func idExpr(L string) (ok, panicked bool) {
+	_, panicked, _ = guarded(func() {
+		e, err := parser.ParseExpr("x.cue", L)
+		if err != nil {
+			return
+		}
+		id, isIdent := e.(*ast.Ident)
+		ok = isIdent && id.Name == L && id.Pos().Offset() == 0
+	})
+	return ok && !panicked, panicked
+}
+
+func idField(L string) (ok, panicked bool) {
+	_, panicked, _ = guarded(func() {
+		f, err := parser.ParseFile("x.cue", L+": 1")
+		if err != nil || f == nil || len(f.Decls) != 1 {
+			return
+		}
+		fld, isField := f.Decls[0].(*ast.Field)
+		if !isField {
+			return
+		}
+		id, isIdent := fld.Label.(*ast.Ident)
+		ok = isIdent && id.Name == L && id.Pos().Offset() == 0
+	})
+	return ok && !panicked, panicked
+}
+
+type idClass struct {
+	name     string
+	known    bool
+	verdicts []string
+	why      string
+	pred     func(L string) bool
+}
+
+func isKeywordSpelling(L string) bool { return token.Lookup(L).IsKeyword() }
+
+var idClasses = []idClass{
+	{
+		name:     "keyword-usable-as-identifier",
+		verdicts: []string{"-IPF"},
+		why:      "if else for in let try fallback otherwise func: the scanner returns the keyword token (not IDENT), ast.IsValidIdent has no keyword list, and the parser turns a keyword in operand or label position back into an *ast.Ident (parseKeyIdent / the ident fallbacks of parseComprehensionClauses, parseLetDecl, parseFunc)",
+		pred: func(L string) bool {
+			t := token.Lookup(L)
+			return t.IsKeyword() && t != token.TRUE && t != token.FALSE && t != token.NULL
+		},
+	},
+	{
+		name:     "keyword-literal",
+		verdicts: []string{"-I--"},
+		why:      "null true false: keyword tokens that the parser turns into *ast.BasicLit (as operand and as label), never *ast.Ident; ast.IsValidIdent has no keyword list",
+		pred: func(L string) bool {
+			t := token.Lookup(L)
+			return t == token.TRUE || t == token.FALSE || t == token.NULL
+		},
+	},
+	{
+		name:     "double-underscore-reserved-in-declarations",
+		verdicts: []string{"SIP-"},
+		why:      "identifiers starting with __ are scanned as IDENT, valid for ast.IsValidIdent and usable as a reference, but parser.checkDeclIdent rejects them wherever an identifier is declared (field label, let, alias, for): \"identifiers starting with '__' are reserved\"",
+		pred:     func(L string) bool { return strings.HasPrefix(L, "__") },
+	},
+	{
+		name:     "package-import-pseudo-keywords",
+		verdicts: []string{"SIP-"},
+		why:      "package and import are ordinary IDENT tokens, but at the start of a file parseFile reads them as the package clause / an import declaration, so `package: 1` and `import: 1` are not fields",
+		pred:     func(L string) bool { return L == "package" || L == "import" },
+	},
+}
+
+func identCheck(L string) idResult {
+	var r idResult
+	s, sp := idScan(L)
+	i, ip := idValid(L)
+	p, pp := idExpr(L)
+	f, fp := idField(L)
+	r.verdict = string([]byte{vch(s, sp, 'S'), vch(i, ip, 'I'), vch(p, pp, 'P'), vch(f, fp, 'F')})
+	if r.verdict == "SIPF" || r.verdict == "----" {
+		return r
+	}
+	for k := range idClasses {
+		c := &idClasses[k]
+		if !c.pred(L) {
+			continue
+		}
+		for _, v := range c.verdicts {
+			if v == r.verdict {
+				r.class, r.known, r.what = c.name, c.known, c.why
+				return r
+			}
+		}
+	}
+	r.untri = true
+	r.class = "ident-disagree:" + r.verdict
+	r.what = "scanner / ast.IsValidIdent / ParseExpr / ParseFile(L+\": 1\") verdicts " + r.verdict
+	return r
+}
+
+// --- identifier generators
+
+var idPlain = []string{"a", "foo_bar", "a1", "A", "x", "Foo", "camelCase", "a_", "a__b", "z9_", "x1y2", "ab", "i", "o", "e1", "x0"}
+var idPrefixed = []string{"_", "_a", "_foo", "_1", "_0a", "#", "#a", "#Foo", "#_a", "#_", "_#", "_#a", "_#Foo", "_#_", "_#_a", "$", "$a", "a$", "a$b", "$$", "$1", "_$",
+	"#$", "__", "__a", "__int", "___", "__#", "__#a", "_#0", "#0", "#1a", "_#1", "##", "#a#", "a#", "_a#b", "_|_", "_|", "|_", "_ |_", "#\"", "#'", "_#\"a\"", "#a.b"}
+var idDigitFirst = []string{"1a", "0x", "9_", "1", "0", "1_a", "0b", "0o", "1e", "1K", "1Ki"}
+var idInner = []string{"a#b", "a-b", "a.b", "a b", "a\tb", "a\nb", "a:b", "a,b", "a/b", "a?", "a!", "a~b", "a@b", "a=b", "a|b", "a&b", "a*b", "a+b", "a(b)", "a[0]", "a{}", "a\"b\"", "a'b'", "a\\b", "a//b", " a", "a ", "\ta", "a\n", "a\r", "\na", "a\r\n", "a;", "a..", "a..."}
+var idKeywords = []string{"if", "for", "let", "in", "null", "true", "false", "import", "package", "func", "else", "try", "otherwise", "fallback",
+	"If", "FOR", "iff", "for_", "_if", "#if", "_#for", "nulls", "True", "int", "string", "bool", "bytes", "number", "float", "uint", "int8", "uint64", "float32", "rune",
+	"len", "close", "and", "or", "div", "mod", "quo", "rem", "__int", "__string", "self", "_self"}
+
+var idUnicode = []string{
+	uc(0xe9), "caf" + uc(0xe9), uc(0xe9) + "a", uc(0x65e5, 0x672c), uc(0x65e5) + "1", "a" + uc(0x65e5), // Latin-1 letter, CJK
+	uc(0x3b1, 0x3b2), uc(0x3a9), "_" + uc(0x3b1), "#" + uc(0x3b1), "$" + uc(0x3b1), // Greek
+	uc(0x663), "a" + uc(0x663), uc(0x663) + "a", "_" + uc(0x663), "#" + uc(0x663), "_#" + uc(0x663), uc(0xff11), "a" + uc(0xff11), // Arabic-Indic / fullwidth digits
+	"e" + uc(0x301), uc(0x301) + "e", "a" + uc(0x200b), uc(0x200b), "a" + uc(0x200d) + "b", // combining mark, ZWSP, ZWJ
+	uc(0x1f600), "a" + uc(0x1f600), uc(0xaa), uc(0xba), uc(0xb5), uc(0x2160), uc(0x2167) + "x", uc(0xb2), "a" + uc(0xb2), uc(0xbd), // ordinal indicators, micro, Roman numerals (Nl), superscript two (No), one half (No)
+	uc(0x1d7d8), "a" + uc(0x1d7d8), uc(0x1d400), uc(0x2028), "a" + uc(0x2028), uc(0xa0) + "a", "a" + uc(0xa0), uc(0xfeff) + "a", "a" + uc(0xfeff), // math digits/letters, LS, NBSP, BOM
+	uc(0xfffd), "a" + uc(0xfffd), uc(0x5f0), uc(0x1c5), uc(0x2b0), uc(0x5d0, 0x5d1), uc(0x203f), "a" + uc(0x203f) + "b", uc(0xff3f), // U+FFFD, Lt/Lm letters, Hebrew, connector punctuation
+	uc(0x10ffff), uc(0xe000), uc(0x16ee), uc(0x3007), uc(0x9fa5),
+}
+
+var idBad = []string{"", "\x00", "a\x00", "\x00a", "a\x00b", "\xff", "a\xff", "\xffa", "\xc0\x80", "a\xc0\x80", "\xed\xa0\x80", "a\xed\xa0\x80", "\xe9", "a\xe9", "\xf4\x90\x80\x80",
+	"\xe2\x82", "a\xe2\x82", "\x80", "\x7f", "a\x7f", "\x01", "a\x1b", "\xef\xbb\xbf", "\xef\xbb\xbfa", "\xef\xbb\xbf_", "@a", "@a()", "//a", "a//", "\"a\"", "'a'", "(a)", "[a]", "{a}", "-a", "!a", "*a", "a:", ":a", "a: b"}
+
+var idMutAlphabet = []string{"_", "#", "$", "-", ".", "0", "1", "9", "a", "Z", " ", "\t", "\n", "\r", "\x00", "\xff", "|", ":", "\"", "'", "/", "@", "(", "?", "!", "~", "=",
+	uc(0xe9), uc(0x663), uc(0x301), uc(0x200b), uc(0x65e5), uc(0x1f600), uc(0xfeff), uc(0x2028), uc(0xb2), uc(0x2160)}
+
+func genIdent(r *common.Rng) idCase {
+	pick := func(kind string, xs []string) idCase { return idCase{kind, common.Pick(r, xs)} }
+	switch p := r.Intn(100); {
+	case p < 10:
+		return pick("plain", idPlain)
+	case p < 24:
+		return pick("prefixed", idPrefixed)
+	case p < 29:
+		return pick("digit-first", idDigitFirst)
+	case p < 37:
+		return pick("inner-punct", idInner)
+	case p < 47:
+		return pick("keyword", idKeywords)
+	case p < 59:
+		return pick("unicode", idUnicode)
+	case p < 66:
+		return pick("bad-bytes", idBad)
+	case p < 69:
+		// very long
+		n := 200 + r.Intn(5000)
+		b := []byte(strings.Repeat(common.Pick(r, []string{"a", "_", "a1", "x_", uc(0xe9), "$"}), n))
+		pre := common.Pick(r, []string{"", "_", "#", "_#", "$", "__", "1"})
+		s := pre + string(b)
+		if r.Chance(1, 4) {
+			s += common.Pick(r, []string{"-", "#", " ", "\x00", uc(0x301)})
+		}
+		return idCase{"long", s}
+	case p < 80:
+		// assembled: prefix + runs of identifier-ish pieces
+		s := common.Pick(r, []string{"", "", "_", "#", "_#", "$", "__", "#_", "_$", "##", "_##", "#$"})
+		k := r.Intn(4)
+		for i := 0; i < k; i++ {
+			s += common.Pick(r, []string{"a", "B", "_", "$", "0", "7", "x1", uc(0xe9), uc(0x663), uc(0x65e5), "if", "for", "null", "int", "#", uc(0x301), uc(0xb2)})
+		}
+		return idCase{"assembled", s}
+	default:
+		var pools = [][]string{idPlain, idPrefixed, idKeywords, idUnicode, idDigitFirst, idInner}
+		base := common.Pick(r, common.Pick(r, pools))
+		return idCase{"mutated", mutateLit(r, base, idMutAlphabet)}
+	}
+}
+
+// canonicalIdents are checked on every seed before the generated cases.
+var canonicalIdents = []string{"a", "_", "#", "_#", "$", "__", "__x", "_|_", "if", "for", "let", "in", "null", "true", "false", "import", "package", "func", "int", "__int", "1a", "_#0", "#0", "a-b", "a.b", ""}
+
+type xIdents struct {
+	Cases         int                       `json:"cases"`
+	Verdicts      map[string]int            `json:"verdicts"`
+	ByKind        map[string]map[string]int `json:"by_kind"`
+	Excluded      map[string]*xExcl         `json:"excluded_classes"`
+	Disagreements int                       `json:"disagreements"`
+	Legend        string                    `json:"legend"`
+}
+
+func (rep *xReport) addC(c idCase, r idResult) {
+	id := &rep.Idents
+	id.Cases++
+	id.Verdicts[r.verdict]++
+	bk := id.ByKind[c.kind]
+	if bk == nil {
+		bk = map[string]int{}
+		id.ByKind[c.kind] = bk
+	}
+	bk[r.verdict]++
+	switch {
+	case r.untri:
+		id.Disagreements++
+		rep.FailuresTotal++
+		rep.FailureClass[r.class]++
+		if len(rep.Failures) < 20 {
+			class := r.class
+			w := shrink([]byte(c.lit), 300, func(b []byte) bool {
+				x := identCheck(string(b))
+				return x.untri && x.class == class
+			})
+			rep.Failures = append(rep.Failures, xFailure{Part: "C", Class: r.class, What: r.what + " for " + quoteShort(string(w)), InputHex: common.Hex(string(w)),
+				Opts: c.kind, Kind: "threeway", LitKind: "ident", Mutation: c.kind, OrigLen: len(c.lit)})
+		}
+	case r.class != "" && r.known:
+		k := rep.Known[r.class]
+		if k == nil {
+			class := r.class
+			w := shrink([]byte(c.lit), 300, func(b []byte) bool {
+				x := identCheck(string(b))
+				return x.known && x.class == class
+			})
+			k = &xKnown{WitnessHex: common.Hex(string(w)), Witness: quoteShort(string(w)), Verdict: identCheck(string(w)).verdict, What: "part C: " + r.what}
+			rep.Known[r.class] = k
+		}
+		k.Count++
+	case r.class != "":
+		e := id.Excluded[r.class]
+		if e == nil {
+			e = &xExcl{WitnessHex: common.Hex(c.lit), Why: r.what}
+			id.Excluded[r.class] = e
+		}
+		e.Count++
+		if !strings.Contains(e.Verdicts, r.verdict) {
+			if e.Verdicts != "" {
+				e.Verdicts += ","
+			}
+			e.Verdicts += r.verdict
+		}
+		if len(c.lit) < len(common.Unhex(e.WitnessHex)) {
+			e.WitnessHex = common.Hex(c.lit)
+		}
+	}
+}
+
+// ---------------------------------------------------------------------------
 // Shrinking (greedy chunk deletion, bounded)
 
 func shrink(in []byte, budget int, keep func([]byte) bool) []byte {
@@ -2030,6 +2353,8 @@ func newReport(mode string, seed uint64) *xReport {
 		FailureClass: map[string]int{},
 		Known:        map[string]*xKnown{}, Relaxed: map[string]*xKnown{}, Relaxations: relaxationDoc,
 		Threeway: xThreeway{ByKind: map[string]map[string]int{}, Verdicts: map[string]int{}, Excluded: map[string]*xExcl{}},
+		Idents: xIdents{ByKind: map[string]map[string]int{}, Verdicts: map[string]int{}, Excluded: map[string]*xExcl{},
+			Legend: "verdict = S I P F: S scanner yields exactly one IDENT == L (then auto comma, EOF, no errors); I ast.IsValidIdent(L); P ParseExpr(L) is *ast.Ident with Name == L; F ParseFile(L+\": 1\") is one Field whose Label is *ast.Ident with Name == L; '-' no, '!' Go panic"},
 	}
 }
 
@@ -2157,7 +2482,7 @@ func (rep *xReport) addB(c twCase, r twResult) {
 				})
 			}
 			rep.Failures = append(rep.Failures, xFailure{Part: "B", Class: r.class, What: r.what, InputHex: common.Hex(string(w)),
-				Opts: c.kind, Kind: "threeway", Mutation: c.kind, OrigLen: len(c.lit)})
+				Opts: c.kind, Kind: "threeway", LitKind: c.kind, Mutation: c.kind, OrigLen: len(c.lit)})
 		}
 	case r.class != "" && r.known:
 		k := rep.Known[r.class]
@@ -2205,7 +2530,7 @@ func writeReport(dir string, rep *xReport, t0 time.Time) {
 
 func usage(msg string) {
 	fmt.Fprintln(os.Stderr, "c09 explore: "+msg)
-	fmt.Fprintln(os.Stderr, "usage: --mode explore --seed N --nmut N --nlit N --out DIR | --mode explore-replay --kind parse|threeway [--lit-kind str-form] --input-hex HEX --out DIR")
+	fmt.Fprintln(os.Stderr, "usage: --mode explore --seed N --nmut N --nlit N --out DIR | --mode explore-replay --kind parse|threeway [--lit-kind str-form|ident] --input-hex HEX --out DIR")
 	os.Exit(2)
 }
 
@@ -2236,6 +2561,10 @@ func runExplore(a map[string]string) {
 			res := checkParse(pin.src, allSets(), true)
 			rep.addA(pin, res, allSets())
 		case "threeway":
+			if a["--lit-kind"] == "ident" {
+				rep.addC(idCase{"replay", in}, identCheck(in))
+				break
+			}
 			c := twCase{kind: "replay", lit: in}
 			if k := a["--lit-kind"]; k != "" {
 				c.kind = k
@@ -2253,9 +2582,17 @@ func runExplore(a map[string]string) {
 func explore(seed uint64, nmut, nlit int) *xReport {
 	debug.SetGCPercent(400) // allocation-heavy, short-lived: fewer GC cycles
 	rep := newReport("explore", seed)
+	tPhase := time.Now()
+	phase := func(name string) {
+		if os.Getenv("VERIF_C09_TIMING") != "" {
+			fmt.Fprintf(os.Stderr, "c09 explore: phase %s %d ms\n", name, time.Since(tPhase).Milliseconds())
+		}
+		tPhase = time.Now()
+	}
 	master := common.NewRng(seed)
 	rngA := master.Fork()
 	rngB := master.Fork()
+	rngC := master.Fork() // forked after A and B: their case streams are unchanged
 
 	// PART A inputs: every corpus file unchanged, then nmut mutants.
 	corpus, source := loadCorpus()
@@ -2277,6 +2614,7 @@ func explore(seed uint64, nmut, nlit int) *xReport {
 			inputs = append(inputs, genMutant(rngA.Fork(), corpus))
 		}
 	}
+	phase("A-generate")
 	resA := make([]*aResult, len(inputs))
 	// Every input is parsed with all four option sets (ParseComments,
 	// ParseComments|AllErrors, none, ParseComments|ParseFuncs): a parse costs well under a millisecond,
@@ -2286,29 +2624,46 @@ func explore(seed uint64, nmut, nlit int) *xReport {
 	// stack). Run them alone, before the worker pool: concurrently with 15
 	// allocation-heavy workers every GC cycle rescans that stack and a parse
 	// that takes ~0.1 s alone was seen to exceed the 5 s watchdog.
+	// One parse each (ParseComments, no determinism re-parse): what is tested
+	// is the bail-out path; explore-replay of such an input runs everything.
 	for i := range inputs {
 		if inputs[i].kind == "nest-limit" {
-			resA[i] = checkParse(inputs[i].src, setsFor(i), true)
+			resA[i] = checkParseDet(inputs[i].src, []int{0}, true, false)
 		}
 	}
+	phase("A-nest-limit")
 	parallelDo(len(inputs), func(i int) {
 		if resA[i] == nil {
 			resA[i] = checkParse(inputs[i].src, setsFor(i), true)
 		}
 	})
+	phase("A-pool")
 	// A watchdog hit under the loaded worker pool is only believed if it
 	// reproduces when the input is checked again alone.
-	for i := range inputs {
-		for _, is := range resA[i].issues {
+	// (up to three more attempts: on a heavily overloaded machine a 0.1 s
+	// deep-recursion parse has been seen to take seconds).
+	hasTimeout := func(r *aResult) bool {
+		for _, is := range r.issues {
 			if is.class == "timeout" {
+				return true
+			}
+		}
+		return false
+	}
+	for i := range inputs {
+		for try := 0; try < 3 && hasTimeout(resA[i]); try++ {
+			if inputs[i].kind == "nest-limit" {
+				resA[i] = checkParseDet(inputs[i].src, []int{0}, true, false)
+			} else {
 				resA[i] = checkParse(inputs[i].src, setsFor(i), true)
-				break
 			}
 		}
 	}
 	for i, in := range inputs {
 		rep.addA(in, resA[i], setsFor(i))
 	}
+
+	phase("A-aggregate")
 
 	// PART B: the canonical witnesses of the triaged classes first (seed
 	// independent, so that every run reports whether each known class still
@@ -2327,5 +2682,23 @@ func explore(seed uint64, nmut, nlit int) *xReport {
 	for i, c := range cases {
 		rep.addB(c, resB[i])
 	}
+
+	phase("B")
+
+	// PART C: identifier spellings, about nlit/4 generated cases after the
+	// canonical ones.
+	var ids []idCase
+	for _, l := range canonicalIdents {
+		ids = append(ids, idCase{"canonical", l})
+	}
+	for i := 0; i < nlit/4; i++ {
+		ids = append(ids, genIdent(rngC.Fork()))
+	}
+	resC := make([]idResult, len(ids))
+	parallelDo(len(ids), func(i int) { resC[i] = identCheck(ids[i].lit) })
+	for i, c := range ids {
+		rep.addC(c, resC[i])
+	}
+	phase("C")
 	return rep
 }
